@@ -259,6 +259,9 @@ class DumpEngine:
 		else:
 			profile = "cut"
 		size = rng.choice([0, 1, 2, 3, 3, 5, 8, 12] + ([20, 40] if thorough else [16]))
+		# a second, unrelated capture handled by the same process while the history runs: what one
+		# reader/writer object learns (offsets, sizes, versions) must not leak into another one
+		decoy = [gen_msg_desc(rng) for _ in range(rng.choice([1, 2, 3, 6]))] if rng.random() < 0.4 else []
 		ops = []
 		n = 0
 		while n < size:
@@ -274,11 +277,17 @@ class DumpEngine:
 				ops.append(self._gen_read(rng, n))
 			else:
 				ops.append({"op": "reopen", "how": rng.choice(["path", "fileobj", "fileobj-w+b"])})
+			if decoy and rng.random() < 0.3:
+				ops.append({"op": "decoy_read", "idx": rng.randint(0, len(decoy))})
 		for _ in range(rng.choice([0, 1, 3])):
 			ops.append(self._gen_read(rng, n))
+			if decoy and rng.random() < 0.5:
+				ops.append({"op": "decoy_read", "idx": rng.randint(0, len(decoy))})
 		cfg = {"profile": profile, "open": rng.choice(["path", "fileobj", "fileobj-w+b"]),
 			"cuts": "all" if (size <= (12 if thorough else 5)) else "sample",
 			"cut_seed": rng.randrange(1 << 30)}
+		if decoy:
+			cfg["decoy"] = decoy
 		if profile == "rot":
 			cfg["rot"] = {"kind": rng.choice(["bitflip", "garbage", "hugelen", "truncate+flip", "tag"]),
 				"seed": rng.randrange(1 << 30), "n": rng.choice([1, 1, 2, 8, 64])}
@@ -296,6 +305,14 @@ class DumpEngine:
 			"count": rng.choice([None, 1, 2, n or 1, n + 3, rng.randint(1, n + 2)])}
 
 	def simplify(self, plan):
+		if plan["config"].get("decoy"):
+			p = json.loads(json.dumps(plan))
+			del p["config"]["decoy"]
+			yield p
+			if len(plan["config"]["decoy"]) > 1:
+				p = json.loads(json.dumps(plan))
+				p["config"]["decoy"] = p["config"]["decoy"][:1]
+				yield p
 		for i, op in enumerate(plan["ops"]):
 			if op["op"] == "append_all" and len(op["msgs"]) > 1:
 				p = json.loads(json.dumps(plan))
@@ -381,7 +398,24 @@ class DumpEngine:
 
 		end = 0
 		confirmed = 0  # file length up to which the measured boundaries were confirmed
+		decoy = None
+		decoy_model = []
 		try:
+			if cfg.get("decoy"):
+				dk = "/sim/decoy.bin"
+				disk.files[dk] = bytearray()
+				decoy = dd.DATADumpFile(disk.open(dk, "a+b"))
+				e2 = 0
+				for d in cfg["decoy"]:
+					decoy.append_msg(build_msg(d))
+					e2 += measure(d)
+					decoy_model.append((fields_of_desc(d), e2))
+				if len(disk.files[dk]) == e2:
+					for i in range(len(decoy_model) + 1):
+						self._check_idx(decoy, decoy_model, i, bad, "second-capture")
+				else:
+					decoy = None
+				probe("second-capture")
 			f = opener(cfg["open"])
 			for op in plan["ops"]:
 				o = op["op"]
@@ -409,10 +443,18 @@ class DumpEngine:
 						self._check_idx(f, model, op["idx"], bad, "live")
 					elif o == "read_slice":
 						self._check_all(f, model, op["skip"], op["count"], bad, "live")
+					elif o == "decoy_read":
+						if decoy is not None:
+							self._check_idx(decoy, decoy_model, op["idx"], bad, "second-capture")
 				except Exception as e:
 					bad("C15.raised", "C15", op=o, exc=type(e).__name__, msg=str(e)[:120])
 				if viols:
 					break
+			if decoy is not None and not viols:
+				self._check_all(decoy, decoy_model, None, None, bad, "second-capture")
+				for i in range(len(decoy_model) + 1):
+					self._check_idx(decoy, decoy_model, i, bad, "second-capture")
+			decoy = None
 			f = None
 			close_current()
 			data = st["content"]
